@@ -1,4 +1,22 @@
 TEXTS = {
+    "C10": {
+        "text": "Machine-checked Lean 4 theorem C10_holds (no wiring hypothesis): every run of the actor model - any "
+                "number of timers of the four kinds with any durations, any virtual-clock history, both mailbox kinds, "
+                "any interleaving with messages, restarts and termination by any cause - is accepted by monC10: every "
+                "sleep of a timer task lasts a full period / delay from the instant it is armed and is armed only "
+                "after the previous sleep was over (hence consecutive deliveries of one interval are at least one "
+                "period apart), no timer acts before its deadline, delayed_send / delayed_exec act at most once, and "
+                "after the actor terminated no timer fires or re-arms and no callback begins. Invariant: a relational "
+                "coupling (Rel2) between the model's timer table and the monitor's records (last deadline, fire count) "
+                "plus 'terminated implies every timer task is dead'. The timer loops' shape (sleep first, then submit "
+                "through a WeakSender) is tied to the code by acceptance of real traces with tarm/fire/tend events "
+                "emitted by the controlled executor.",
+        "design_ref": "DESIGN.md §5 C10",
+        "note": "Partial: leak-freedom at quiescence and tick/arm accounting (monC10q) are trace-checked, not proved; "
+                "'never prolong the actor' is carried by C05's handle/timer clause on the same traces. Trusted: Lean "
+                "kernel + axioms; virtual time in place of tokio sleep.",
+        "technique": "Lean 4 proof (relational timer-table simulation, exhaustive step case analysis) + checked trace correspondence",
+    },
     "C11": {
         "text": "Machine-checked Lean 4 theorem C11_holds (no wiring hypothesis): every run of the actor model - all "
                 "timeout values and handler durations on the virtual clock, any message sequence with further messages "
@@ -167,6 +185,5 @@ TEXTS = {
 _PENDING = "check under construction in this round: model + theorem not yet wired into ./check (see DESIGN.md build order); not claimed until its three obligations run end to end"
 NOT_APPLICABLE = [
     {"property_id": p, "reason": _PENDING}
-    for p in ["C01", "C02", "C05", "C06", "C08", "C09", "C10",
-              "C16"]
+    for p in ["C01", "C02", "C05", "C06", "C08", "C09", "C16"]
 ]
